@@ -77,6 +77,9 @@ impl Engine {
         let ident = self.m.forwarded as i128 - self.m.set_aside as i128 - self.m.swept as i128 + self.m.rebase;
         let (f0, e0, s0, r0) = (self.m.forwarded, self.m.set_aside, self.m.swept, self.m.rebase);
         self.chk(&["C01"], ident == n as i128, || format!("total {n} != forwarded {f0} - set aside {e0} - swept {s0} + rebase {r0}"));
+        if self.identity_changed {
+            return self.invariants_tail();
+        }
         let staker = self.m.cfg.staker.clone();
         let mut delivered = 0u128;
         let mut inflight = 0u128;
@@ -99,6 +102,12 @@ impl Engine {
         self.chk(&["C01"], held + inflight as i128 + awaiting as i128 == owes && held == self.staker_ledger, || {
             format!("staker side holds {held} (+{inflight} in flight, +{awaiting} awaiting) but must back total + outstanding batches = {owes}")
         });
+        self.invariants_tail();
+    }
+
+    fn invariants_tail(&mut self) {
+        let (n, l) = (self.m.n, self.m.l);
+        let _ = n;
         // ---- C02: solvency of the contract's staked-asset balance
         let contract = self.a.contract.clone();
         let bal = self.ch.balance(&contract, STAKED_DENOM);
